@@ -42,7 +42,7 @@ fn per_method(sem: &MethodSem, rng: &mut Rng, r: &mut Report, rp: &dyn Fn() -> J
     };
     let base = sem.name.strip_prefix("insert_").filter(|_| sem.is_insert).unwrap_or(sem.name);
     let mut b = prepared(sem);
-    let mut ctx = ArgCtx { insert_end_only: true, explicit_id_8: if explicit { 8 } else { 0 }, ..Default::default() };
+    let mut ctx = ArgCtx { insert_end_only: true, explicit_id_8: if explicit { 8 } else { 0 }, repeat_in_lists: true, ..Default::default() };
     if sem.name.ends_with("_bit64") {
         // a 64-bit literal conforms only under a declared 64-bit type
         ctx.types64 = vec![b.type_int(64, 0), b.type_float(64, None)];
